@@ -51,6 +51,23 @@ func NewChildEnvironment(parent *Environment) *Environment {
 	}
 }
 
+// Snapshot returns a detached environment holding a copy of every binding
+// visible from e (closest scope wins). It has no parent, so code running in
+// another goroutine can use it without touching the maps of live scopes.
+func (e *Environment) Snapshot() *Environment {
+	var chain []*Environment
+	for scope := e; scope != nil; scope = scope.parent {
+		chain = append(chain, scope)
+	}
+	snap := NewEnvironment()
+	for idx := len(chain) - 1; idx >= 0; idx-- {
+		for name, b := range chain[idx].vars {
+			snap.vars[name] = b
+		}
+	}
+	return snap
+}
+
 // Define adds a new variable to the current environment as a user-declared
 // binding. For bindings that originate from the runtime (e.g. path or query
 // parameters), use DefineWithSource so diagnostics can report the origin.
